@@ -40,7 +40,76 @@ class _Clock:
 
 
 def scenarios(tier, seed):
-    return [(tpp, per, init, g0) for tpp in TPPS for per in PERIODS for init in INITS for g0 in range(len(GAPS))]
+    out = [(tpp, per, init, g0) for tpp in TPPS for per in PERIODS for init in INITS for g0 in range(len(GAPS))]
+    out += [("concurrent", tpp, per, init) for tpp in TPPS for per in PERIODS for init in INITS]
+    return out
+
+
+def run_concurrent(sc, res):
+    """Callers that really wait: n tasks suspended in limiter.wait() at the same time on the virtual loop (two bursts, the
+    second after a gap). Their send times must be those of the exact-rational bucket and satisfy the window bound."""
+    import asyncio
+    from mc.vloop import VLoop
+    _, tpp, per, init = sc
+    rate = F(tpp) / per
+    capacity = max(F(tpp), F(init))
+    for n1 in (1, 2, 3, 5, 8, 12):
+        for n2, gap in ((0, 0), (3, F(1, 2)), (4, F(2))):
+            loop = VLoop()
+            clock = type("C", (), {"time": staticmethod(lambda: T0 + loop.time())})
+            saved = token_bucket.time
+            token_bucket.time = clock
+            sends = []
+            try:
+                tb = token_bucket.TokenBucketLimiter(tpp, per, init)
+
+                async def caller(tag):
+                    await tb.wait()
+                    sends.append((loop.time(), tag))
+
+                async def main():
+                    tasks = [asyncio.ensure_future(caller(("a", i))) for i in range(n1)]
+                    if n2:
+                        await asyncio.sleep(float(gap * per))
+                        tasks += [asyncio.ensure_future(caller(("b", i))) for i in range(n2)]
+                    await asyncio.gather(*tasks)
+                loop.run(main(), horizon=10 ** 6)
+            finally:
+                loop.shutdown()
+                token_bucket.time = saved
+            # reference: requests arrive at 0 (n1 of them) and at gap*per (n2), in that order
+            arrivals = [F(T0)] * n1 + [F(T0) + gap * per] * n2
+            refs = [reference(tpp, per, init, arrivals, F(tpp)), reference(tpp, per, init, arrivals, capacity)]
+            got = sorted(F(t) for t, _ in sends)
+            bad = []
+
+            def expect(ws):
+                return sorted((a - F(T0)) + w for a, w in zip(arrivals, ws))
+            if not any(all(abs(g - x) <= F(1, 10 ** 6) * max(1, x) for g, x in zip(got, expect(r))) for r in refs):
+                bad.append(("concurrent-send-times", f"send times {[float(g) for g in got]}, exact bucket gives "
+                            f"{[float(x) for x in expect(refs[0])]}"))
+            for a in range(len(got)):
+                for b in range(a, len(got)):
+                    if (b - a + 1) > capacity + rate * (got[b] - got[a]) + 1 + F(1, 10 ** 6):
+                        bad.append(("window-bound", f"{b - a + 1} requests sent within {float(got[b] - got[a])}s by concurrent "
+                                    f"waiters; capacity {float(capacity)}, rate {float(rate)}/s"))
+                        break
+                else:
+                    continue
+                break
+            res.executions += 1
+            res.transitions += n1 + n2
+            res.validated += 1
+            key = h64((sc, n1, n2, str(gap)))
+            res.states.add(key)
+            res.nontrivial.add(key)
+            res.outcomes["concurrent"] += 1
+            case = dict(kind="concurrent", tokens_per_period=tpp, period=per, initial=init, burst=n1, second_burst=n2,
+                        gap_in_periods=str(gap))
+            for clause, detail in bad:
+                res.violation(f"{PROPERTY}:{clause}:wait", f"{detail}; {case}", case, size=n1 + n2)
+    res.samples.append(dict(kind="concurrent", tokens_per_period=tpp, period=per, initial=init))
+    return res
 
 
 def reference(tpp, per, init, times, cap):
@@ -104,6 +173,8 @@ def run_case(tpp, per, init, gaps):
 
 def run_scenario(sc, tier):
     res = Result()
+    if sc[0] == "concurrent":
+        return run_concurrent(sc, res)
     tpp, per, init, g0 = sc
     maxn = BOUNDS[tier]["max_requests"]
     for n in range(1, maxn + 1):
@@ -128,6 +199,10 @@ def run_scenario(sc, tier):
 
 
 def replay(rep):
+    if rep.get("kind") == "concurrent":
+        res = Result()
+        run_concurrent(("concurrent", rep["tokens_per_period"], rep["period"], rep["initial"]), res)
+        return [v["message"] for v in res.violations][:5]
     gaps = tuple(F(g) for g in rep["gaps_in_periods"])
     bad, waits = run_case(rep["tokens_per_period"], rep["period"], rep["initial"], gaps)
     print("case:", rep, "waits:", waits)
